@@ -905,3 +905,31 @@ Proof.
   unfold wf_ring, open_shared, sem_ok; cbn [hW hwpt hrpt hsem]. unfold rb_open in *; cbn [rW rpt sem] in *.
   repeat split; try lia. destruct nosem; cbn; lia.
 Qed.
+
+(* ------------------------------------------------------------------ for every schedule *)
+Lemma all_inv : forall h pw pr sched, wf_ring h -> Inv (exec sched (init h pw pr)).
+Proof. intros. apply inv_exec. apply inv_init. assumption. Qed.
+
+Lemma all_fifo : forall h pw pr sched, wf_ring h ->
+  let s := exec sched (init h pw pr) in
+  (exists pre rest, g_pub s = pre ++ rest /\ Forall2 gmatch (g_got s) pre) /\ g_err s = false.
+Proof. intros h pw pr sched H. apply inv_fifo. apply all_inv; assumption. Qed.
+
+Lemma all_prefix : forall h pw pr sched, wf_ring h ->
+  let s := exec sched (init h pw pr) in
+  Forall (fun g => g <> None) (g_got s) -> exists pre rest, g_pub s = pre ++ rest /\ g_got s = map Some pre.
+Proof.
+  intros h pw pr sched H s Hall. destruct (all_fifo h pw pr sched H) as ((pre & rest & Hp & Hm) & _).
+  exists pre, rest. split; [exact Hp|]. apply matches_all_some; assumption.
+Qed.
+
+Lemma all_peeked : forall h pw pr sched, wf_ring h ->
+  let s := exec sched (init h pw pr) in
+  r_have (g_r s) = true -> nth_error (g_pub s) (length (g_got s)) = Some (r_buf (g_r s)).
+Proof. intros h pw pr sched H. apply inv_peeked. apply all_inv; assumption. Qed.
+
+Lemma all_drained : forall h pw pr sched, wf_ring h ->
+  let s := exec sched (init h pw pr) in
+  quiescent s = true -> hrpt (g_sh s) = hwpt (g_sh s) ->
+  length (g_got s) = length (g_pub s) /\ Forall2 gmatch (g_got s) (g_pub s).
+Proof. intros h pw pr sched H. apply inv_drained. apply all_inv; assumption. Qed.
